@@ -14,7 +14,8 @@ from cutplace import applications, errors
 
 PROPERTY_ID = "C07"
 RULE = (
-    "Complete enumeration, family 'bad': format in {delimited, fixed} (ods and excel/xlsx files: a seed-chosen "
+    "Complete enumeration, family 'bad': format in {delimited, fixed} (ods and excel/xlsx files, and fixed files "
+    "whose records end in a bare CR - declared as CR or Any - read from a StringIO with the default newline setting: a seed-chosen "
     "sample of the same tables in quick, all of them in thorough) x header 0..3 x table of r in 1..6 rows "
     "(id = Integer 100...899, code = Choice aa,bb) that is either all good or has exactly one bad row at every "
     "position 1..r (also inside the header; kinds: id not a number, id outside the range, code not a choice, "
@@ -52,26 +53,30 @@ EXHAUSTIVE_SCOPE = (
 
 FORMATS = ("delimited", "fixed", "ods", "excel")
 KINDS = {"delimited": ("int", "range", "choice", "count", "char", "dup"),
-         "fixed": ("int", "range", "choice", "char", "dup"), "ods": ("int", "choice", "char", "dup"),
+         "fixed": ("int", "range", "choice", "char", "dup"), "fixed-cr": ("int", "choice", "dup"),
+         "ods": ("int", "choice", "char", "dup"),
          "excel": ("int", "choice", "dup")}
-TITLES = {"delimited": ["id", "code"], "fixed": ["id ", "cd"], "ods": ["id", "code"], "excel": ["id", "code"]}
-SUFFIX = {"delimited": ".csv", "fixed": ".txt", "ods": ".ods", "excel": ".xlsx"}
+TITLES = {"delimited": ["id", "code"], "fixed": ["id ", "cd"], "fixed-cr": ["id ", "cd"], "ods": ["id", "code"], "excel": ["id", "code"]}
+SUFFIX = {"delimited": ".csv", "fixed": ".txt", "fixed-cr": ".dat", "ods": ".ods", "excel": ".xlsx"}
 MAX_ROWS = 6
 MAX_HEADER = 3
 
 
 # -- construction of CIDs, tables and files (no cutplace) --------------------------
 def cid_rows(fmt, header):
-    rows = [["D", "Format", {"delimited": "Delimited", "fixed": "Fixed", "ods": "ODS", "excel": "Excel"}[fmt]],
+    rows = [["D", "Format", {"delimited": "Delimited", "fixed": "Fixed", "fixed-cr": "Fixed", "ods": "ODS", "excel": "Excel"}[fmt]],
             ["D", "Header", str(header)]]
-    if fmt in ("delimited", "fixed"):
+    if fmt in ("delimited", "fixed", "fixed-cr"):
         rows.append(["D", "Encoding", "utf-8"])
     if fmt == "fixed":
         rows.append(["D", "Line delimiter", "LF"])
+    if fmt == "fixed-cr":
+        # records end in a bare carriage return, declared as such or covered by 'Any'
+        rows.append(["D", "Line delimiter", "CR" if header % 2 else "Any"])
     # printable ASCII only: bad rows of kind 'char' break this rule (and, as it happens, the rule of their field)
     rows.append(["D", "Allowed characters", "32...126"])
-    rows.append(["F", "id", "", "", "3" if fmt == "fixed" else "", "Integer", "100...899"])
-    rows.append(["F", "code", "", "", "2" if fmt == "fixed" else "", "Choice", "aa,bb"])
+    rows.append(["F", "id", "", "", "3" if fmt in ("fixed", "fixed-cr") else "", "Integer", "100...899"])
+    rows.append(["F", "code", "", "", "2" if fmt in ("fixed", "fixed-cr") else "", "Choice", "aa,bb"])
     rows.append(["C", "id is unique", "IsUnique", "id"])
     return rows
 
@@ -114,12 +119,14 @@ def make_table(fmt, header, r, bad, kind, style):
 def render_text(fmt, table):
     if fmt == "delimited":
         return "".join(",".join(row) + "\n" for row in table)
+    if fmt == "fixed-cr":
+        return "".join("".join(row) + "\r" for row in table)
     assert fmt == "fixed"
     return "".join("".join(row) + "\n" for row in table)
 
 
 def write_data(fmt, path, table, text=None):
-    if fmt in ("delimited", "fixed"):
+    if fmt in ("delimited", "fixed", "fixed-cr"):
         with open(path, "w", encoding="utf-8", newline="") as f:
             f.write(render_text(fmt, table) if text is None else text)
     elif fmt == "ods":
@@ -230,7 +237,9 @@ def observe(sub, case, table, source, cid_path=None):
     sub.evaluations += 1
 
     def stream():
-        if fmt in ("delimited", "fixed") and not observer.endswith("-path"):
+        if fmt == "fixed-cr" and not observer.endswith("-path"):
+            return io.StringIO(source)  # the default newline setting "\n" translates nothing when reading either
+        if fmt in ("delimited", "fixed", "fixed-cr") and not observer.endswith("-path"):
             return io.StringIO(source, newline="")
         return source
 
@@ -351,7 +360,7 @@ def check_table(sub, files, spec, classes, only=None, by_path=False):
     """All limits x observers for one table.  Returns (evaluations, nontrivial)."""
     fmt, header, r, bad, kind, style = spec
     table = make_table(fmt, header, r, bad, kind, style)
-    text = render_text(fmt, table) if fmt in ("delimited", "fixed") else None
+    text = render_text(fmt, table) if fmt in ("delimited", "fixed", "fixed-cr") else None
     data_path = files.data_path(fmt)
     write_data(fmt, data_path, table)
     cid_path = files.cid_path(fmt, header)
@@ -635,6 +644,8 @@ def run(ctx):
     ctx.par(_several_shard, [(i, ctx.workers, several) for i in range(ctx.workers)])
     max_rows = ctx.n(MAX_ROWS, MAX_ROWS + 2)  # thorough goes beyond the stated scope (r up to 8)
     specs = table_specs("delimited", max_rows) + table_specs("fixed", max_rows)
+    cr_specs = table_specs("fixed-cr", max_rows)
+    specs += [s for i, s in enumerate(cr_specs) if (i + ctx.seed) % ctx.n(3, 1) == 0]
     # spreadsheet files: same tables; quick takes every stride-th one, the start depends on the seed
     stride = ctx.n(6, 1)
     for fmt in ("ods", "excel"):
@@ -662,7 +673,7 @@ def replay(sub, case):
                                         case["style"])
     files = _Files()
     try:
-        if case["observer"].endswith("-by-cid-file") and fmt in ("delimited", "fixed"):
+        if case["observer"].endswith("-by-cid-file") and fmt in ("delimited", "fixed", "fixed-cr"):
             # in the enumeration the CID file at this path declared other header counts before: repeat that history
             for other in range(MAX_HEADER + 1):
                 if other != header:
